@@ -80,6 +80,15 @@ fn main() {
                 println!("{:28} {}", k, w);
             }
         }
+        "memreplay" => {
+            // symx memreplay <cell_bytes> <size> <offset> <start> <end>: native replay of a geometry
+            // counterexample of the E5 lemmas through the public Memory API
+            let v: Vec<i64> = args[2..].iter().filter_map(|s| s.parse().ok()).collect();
+            if v.len() < 5 {
+                usage();
+            }
+            exit(props::memreplay(v[0] as u32, v[1], v[2], v[3], v[4]));
+        }
         "corpus" => {
             // development aid: print the programs of one corpus family
             let fam = args.get(2).cloned().unwrap_or_default();
